@@ -230,3 +230,18 @@ MUTANTS["C15"] = [
     ("not-verified-no-error", [(E3S, "        if not verified:\n            self.record_error(f\"Failed to connect via USB (port name: {self.port_name})\")\n            self.disconnect()", "        if not verified:\n            self.disconnect()")]),
     ("reboot-gate-le", [(ELS, "        version_status = min_version(port_name, \"2.5.5\")\n        if version_status:\n            try:\n                command(port_name,'RB\\r')", "        version_status = min_version(port_name, \"2.5.50\")\n        if version_status:\n            try:\n                command(port_name,'RB\\r')")]),
 ]
+
+MUTANTS["C16"] = [
+    ("write-little-endian", [(E3S, "        bytes_sequence = value.to_bytes(4, byteorder='big', signed=True)", "        bytes_sequence = value.to_bytes(4, byteorder='little', signed=True)")]),
+    ("read-unsigned", [(E3S, "        return int.from_bytes(bytes_sequence, byteorder='big', signed=True)", "        return int.from_bytes(bytes_sequence, byteorder='big', signed=False)")]),
+    ("both-little-endian", [(E3S, "        bytes_sequence = value.to_bytes(4, byteorder='big', signed=True)", "        bytes_sequence = value.to_bytes(4, byteorder='little', signed=True)"),
+                            (E3S, "        return int.from_bytes(bytes_sequence, byteorder='big', signed=True)", "        return int.from_bytes(bytes_sequence, byteorder='little', signed=True)")]),
+    ("slot-increment-skipped", [(E3S, "            self.var_write(byte, start_index)\n            start_index += 1", "            self.var_write(byte, start_index)\n            start_index += 1 if byte else 0")]),
+    ("old-res-motor2-first", [(M3, "            if motor_res[1] != 0:\n                old_res = motor_res[1]\n            if motor_res[0] != 0:\n                old_res = motor_res[0]\n\n            if old_res != resolution_2:", "            if motor_res[1] != 0:\n                old_res = motor_res[1]\n            if motor_res[0] != 0:\n                old_res = motor_res[0]\n\n            if old_res != resolution_2 and old_res != 0:")]),
+    ("presetting-removed", [(M3, "            if old_res != resolution_2:\n                # print(f'Sending: EM,{resolution_2},{resolution_2}')\n                self.command(f'EM,{resolution_2},{resolution_2}')\n", "")]),
+    ("res-map-entry-wrong", [(M3, "        res_map = {16: 1, 8: 2, 4: 3, 2: 4, 1: 5, 0:0}", "        res_map = {16: 1, 8: 2, 4: 3, 2: 5, 1: 4, 0:0}")]),
+    ("clamp-upper-4", [(M3, "        resolution_1 = min(resolution_1, 5)", "        resolution_1 = min(resolution_1, 4)")]),
+    ("nickname-not-trimmed-on-read", [(E3S, "                self.name = str(raw_string).strip()", "                self.name = str(raw_string).lower().strip()")]),
+    ("var-read-wraps-signed-byte", [(E3S, "        return int(value)\n\n\n    def var_write_int32", "        return int(value) if int(value) < 128 else int(value) - 256\n\n\n    def var_write_int32")]),
+    ("query-enabled-swapped", [(M3, "        return res_map[int(res_list[0])], res_map[int(res_list[1])]", "        return res_map[int(res_list[1])], res_map[int(res_list[0])]")]),
+]
